@@ -43,11 +43,11 @@ func registerEngine(sp engPropSpec) {
 }
 
 var valAll = map[string]int{"u": 10, "s0": 4, "s1": 4, "s2": 3, "s3": 2, "s4": 2, "s5": 2, "s6": 1, "s7": 3,
-	"some": 3, "arr": 3, "map": 2, "cmap": 1}
+	"some": 3, "arr": 3, "map": 2, "cmap": 1, "barr": 2}
 var valNoComposite = map[string]int{"u": 10, "s0": 4, "s1": 4, "s2": 3, "s3": 2, "s4": 2, "s5": 2, "s6": 1, "s7": 3,
 	"some": 3, "arr": 3, "map": 3}
 var valNested = map[string]int{"u": 6, "s0": 2, "s1": 3, "s2": 2, "s3": 1, "s4": 1, "s5": 1, "s7": 2,
-	"some": 4, "arr": 8, "map": 6, "cmap": 2}
+	"some": 4, "arr": 8, "map": 6, "cmap": 2, "barr": 2}
 
 func scale(g *GenCfg) *GenCfg {
 	if thorough() {
@@ -107,6 +107,7 @@ func init() {
 				},
 				MaxBulk: 80, Keys: []int{12, 64, 300},
 				ValW:    val, MaxDepth: 3, MaxElems: 5, AcqW: [3]int{7, 2, 1}, Keep: keep,
+				DigRootsPct: 30, // root maps with colliding digests: inline / external collision groups
 			})
 		}
 	}
@@ -141,7 +142,17 @@ func init() {
 	})
 	// ------------------------------------------------------------------ C09
 	registerEngine(engPropSpec{
-		ID: "C09", G: structG(0, valAll),
+		ID: "C09",
+		G: func() *GenCfg {
+			g := structG(0, valAll)()
+			// temporary-address containers next to owned ones, both commit flavours
+			g.Roots = append(g.Roots,
+				[]RootSpec{{K: "arr", Addr: 1, TI: 1}, {K: "map", Addr: 0, TI: 2}},
+				[]RootSpec{{K: "map", Addr: 2, TI: 2}, {K: "arr", Addr: 0, TI: 1}, {K: "arr", Addr: 2, TI: 3}})
+			g.NondetPct = 40
+			g.W["commit"] = 5
+			return g
+		},
 		Or:  func(*Case) Oracles { return Oracles{CmpEvery: 16, Health: true} },
 		Post: func(e *Engine, cs *Case) error { return e.emptyEverything() },
 		Non: func(s *CaseStats) bool {
@@ -161,6 +172,7 @@ func init() {
 		G: func() *GenCfg {
 			g := structG(0, valNested)()
 			g.W["reget"] = 5
+			g.W["reset"], g.W["mreset"] = 4, 3
 			g.AcqW = [3]int{6, 2, 2}
 			g.MaxElems = 6
 			return g
